@@ -114,7 +114,7 @@ def worker(args):
 
 def run(ctx):
     server_bin("rel")
-    nprog, mi = (60, 30) if ctx.quick else (1500, 100)
+    nprog, mi = (160, 30) if ctx.quick else (1500, 100)
     open_ids = frozenset(f["id"] for f in ctx.open_findings())
     replay_witnesses(ctx)
     for p in pmap(worker, [("%s/%d" % (ctx.seed, i), nprog, mi, open_ids) for i in range(NCPU)]): ctx.merge(p)
